@@ -39,12 +39,23 @@ structure RunInv (env : Env) (tok : Nat → Tok) (P : Nat → Pos) (F : Nat) (st
     st.gss.heads[ed.dst]? = some hd → hs.frontier = F → hd.frontier < F
   done : ∀ k, k < F → LevelDone env st.gss tok k (subs k)
   acc : ∀ k, k < F → ∀ (s u : Nat), (s, u) ∈ subs k → Action.accept ∈ env.t.cell s (tok k).kind → u ∈ st.accepted
-  start : (F = 0 ∧ base = [0] ∧ ∃ hd : Head, st.gss.heads[0]? = some hd ∧ hd.state = 0) ∨ (0 < F ∧ (0, 0) ∈ subs 0)
+  start : (F = 0 ∧ base = [0] ∧ ∃ hd : Head, st.gss.heads[0]? = some hd ∧ hd.state = 0) ∨
+    (0 < F ∧ (env.t.cell 0 (tok 0).kind ≠ [] → (0, 0) ∈ subs 0))
+  /-- every lookahead token of a finished level is the token of that level -/
+  toks : ∀ (h : Nat) (hd : Head), st.gss.heads[h]? = some hd → hd.frontier < F → ∀ t, hd.tok = some t → t = tok hd.frontier
+  /-- a head whose state is entered on a terminal was shifted: on the token of the level below -/
+  hsym : ∀ (h : Nat) (hd : Head) (k : Nat), st.gss.heads[h]? = some hd → hd.frontier = k + 1 →
+    env.t.symAt hd.state < env.g.nterms → env.t.symAt hd.state = (tok k).kind
+  /-- one head per level and state -/
+  hfun : ∀ (h h' : Nat) (hd hd' : Head), st.gss.heads[h]? = some hd → st.gss.heads[h']? = some hd' →
+    hd.frontier = hd'.frontier → hd.state = hd'.state → h = h'
+  /-- a base head is the start head or sits in a state entered on a terminal -/
+  bterm : ∀ h ∈ base, ∀ hd : Head, st.gss.heads[h]? = some hd → hd.state = 0 ∨ env.t.symAt hd.state < env.g.nterms
 
 theorem frontierStep_run {env : Env} (hT : TableOk env) (hC : CompleteRN env.g env.t) (hW : GWF env.g)
     (hNS : ∀ s s', Action.shift s' ∉ env.t.cell s 0) {pp : Bool} {fuel n : Nat} {tok : Nat → Tok} {P L : Nat → Pos}
     (hL : LexDet env pp fuel n tok P L) {F : Nat} (hF : F ≤ n) {st st' : St} {base base' : List Nat}
-    {subs : Nat → SubFrontier} (RI : RunInv env tok P F st base subs) (halive0 : env.t.cell 0 (tok 0).kind ≠ [])
+    {subs : Nat → SubFrontier} (RI : RunInv env tok P F st base subs)
     (hok : frontierStep env pp fuel F st base = .ok (st', base')) :
     (F = n → base' = []) ∧ ∃ sub, RunInv env tok P (F + 1) st' base' (fun k => if k = F then sub else subs k) := by
   unfold frontierStep at hok
@@ -169,10 +180,26 @@ theorem frontierStep_run {env : Env} (hT : TableOk env) (hC : CompleteRN env.g e
     intro i hi
     obtain ⟨hd', m1, _⟩ := sp.upd i hi
     exact ⟨hd', m1⟩
+  have hbst1 : ∀ i ∈ base, ∀ hd : Head, g1.heads[i]? = some hd →
+      ∃ hd0 : Head, st.gss.heads[i]? = some hd0 ∧ hd0.state = hd.state := by
+    intro i hi hd hh
+    obtain ⟨y, k1, _, k3⟩ := heads1 i hd hh
+    exact ⟨y, k1, k3⟩
+  have hbfun1 : ∀ i ∈ base, ∀ j ∈ base, ∀ (hd hd' : Head), g1.heads[i]? = some hd → g1.heads[j]? = some hd' →
+      hd.state = hd'.state → i = j := by
+    intro i hi j hj hd hd' hh hh' hs
+    obtain ⟨x, hx, hxs⟩ := hbst1 i hi hd hh
+    obtain ⟨y, hy, hys⟩ := hbst1 j hj hd' hh'
+    exact RI.bfun i hi j hj x y hx hy (by rw [hxs, hys, hs])
+  have hbterm1 : ∀ i ∈ base, ∀ hd : Head, g1.heads[i]? = some hd → hd.state = 0 ∨ env.t.symAt hd.state < env.g.nterms := by
+    intro i hi hd hh
+    obtain ⟨x, hx, hxs⟩ := hbst1 i hi hd hh
+    rw [← hxs]
+    exact RI.bterm i hi x hx
   have hs1 : StOk env F ⟨g1, [], st.accepted⟩ :=
     ⟨hg1, fun _ h => by simp at h, fun a h => (RI.sok.acc a h).ext hx1.ext⟩
   -- the reducer phase
-  obtain ⟨sub, mid, hsubsub⟩ := reducer_phase hT hC hW hs1 gu1 hshape hsub0 hfun hkind hlevel hdown htp halive hbase1 hip hra
+  obtain ⟨sub, mid, hsubsub⟩ := reducer_phase hT hC hW hs1 gu1 hshape hsub0 hfun hkind hlevel hdown htp halive hbase1 hbfun1 hbterm1 hip hra
   -- the shifter
   have hfacts : ∀ x ∈ st3.shifts, ShiftFact env F (tok F) (L F) (P (F + 1)) st3.gss x := by
     intro x hx
@@ -200,7 +227,7 @@ theorem frontierStep_run {env : Env} (hT : TableOk env) (hC : CompleteRN env.g e
     subst heq
     exact ⟨k, hkv⟩
   have hframeAll : FrameLt F st.gss st'.gss := (frame0.trans mid.frame).trans (si.frame.mono (Nat.le_succ F))
-  refine ⟨?_, sub, hst', hshifts', hbok', si.gu, ?_, ?_, ?_, ?_, ?_, ?_, ?_, ?_⟩
+  refine ⟨?_, sub, hst', hshifts', hbok', si.gu, ?_, ?_, ?_, ?_, ?_, ?_, ?_, ?_, ?_, ?_, ?_, ?_⟩
   · -- STOP is not shifted: nothing after the last level
     intro hFn
     have hnil : st3.shifts = [] := by
@@ -224,20 +251,20 @@ theorem frontierStep_run {env : Env} (hT : TableOk env) (hC : CompleteRN env.g e
     apply List.Pairwise.imp_of_mem _ si.keys
     intro x y hx hy hne heq
     apply hne
-    obtain ⟨k1, hv, k2, k3, _⟩ := si.map x.1 x.2 hx
-    obtain ⟨m1, hv', m2, m3, _⟩ := si.map y.1 y.2 hy
+    obtain ⟨k1, _, hv, k2, k3, _⟩ := si.map x.1 x.2 hx
+    obtain ⟨m1, _, hv', m2, m3, _⟩ := si.map y.1 y.2 hy
     rw [heq] at k2
     rw [k2] at m2; injection m2 with m2; subst m2
     exact Prod.ext (by rw [← k3, ← m3]) (by rw [k1, m1])
   · intro h hh
     obtain ⟨k, hk⟩ := hmemb h hh
-    obtain ⟨_, hv, k2, _, k4, k5, k6⟩ := si.map k h hk
+    obtain ⟨_, _, hv, k2, _, k4, k5, k6⟩ := si.map k h hk
     exact ⟨hv, k2, k5, k6, k4⟩
   · intro h hh h' hh' hd hd' k1 k1' hs
     obtain ⟨k, hk⟩ := hmemb h hh
     obtain ⟨k', hk'⟩ := hmemb h' hh'
-    obtain ⟨p1, hv, m2, m3, _⟩ := si.map k h hk
-    obtain ⟨p1', hv', m2', m3', _⟩ := si.map k' h' hk'
+    obtain ⟨p1, _, hv, m2, m3, _⟩ := si.map k h hk
+    obtain ⟨p1', _, hv', m2', m3', _⟩ := si.map k' h' hk'
     rw [k1] at m2; injection m2 with m2; subst m2
     rw [k1'] at m2'; injection m2' with m2'; subst m2'
     have hkk : k = k' := Prod.ext (by rw [← m3, ← m3', hs]) (by rw [p1, p1'])
@@ -272,6 +299,7 @@ theorem frontierStep_run {env : Env} (hT : TableOk env) (hC : CompleteRN env.g e
       exact mid.am _ (RI.acc k (by omega) s u hs hact)
   · right
     refine ⟨Nat.succ_pos F, ?_⟩
+    intro halive0
     rcases RI.start with ⟨hF0, hb0, hd0, hh0, hs0⟩ | ⟨hpos, hm⟩
     · subst hF0
       simp only [↓reduceIte]
@@ -283,6 +311,88 @@ theorem frontierStep_run {env : Env} (hT : TableOk env) (hC : CompleteRN env.g e
       exact this
     · have : ¬ 0 = F := by omega
       simp only [this, ↓reduceIte]
-      exact hm
+      exact hm halive0
+  · -- tokens of finished levels
+    intro h hd hh hl t ht
+    rcases Nat.lt_or_ge hd.frontier F with hlt | hge
+    · exact RI.toks h hd (hframeAll.heads_bwd h hd hh hlt) hlt t ht
+    · have hF' : hd.frontier = F := by omega
+      have h3 := si.frame.heads_bwd h hd hh (by omega)
+      rw [hF']
+      exact (mid.tp h hd h3 hF').2 t ht
+  · -- heads entered on a terminal
+    intro h hd k hh hk hsy
+    rcases Nat.lt_or_ge hd.frontier F with hlt | hge
+    · exact RI.hsym h hd k (hframeAll.heads_bwd h hd hh hlt) hk hsy
+    · rcases Nat.lt_or_ge F hd.frontier with hgt | hle
+      · -- a head the shifter created
+        have hF1 : hd.frontier = F + 1 := by
+          have := si.gu.noAbove h hd hh; omega
+        obtain ⟨k', hk'⟩ := si.level h hd hh hF1
+        obtain ⟨_, q2, hv, q3, q4, _⟩ := si.map k' h hk'
+        rw [hh] at q3; injection q3 with q3; subst q3
+        have : k = F := by omega
+        subst this
+        rw [q4]; exact q2
+      · have hF' : hd.frontier = F := by omega
+        have h3 := si.frame.heads_bwd h hd hh (by omega)
+        rcases mid.nsym h hd h3 hF' with hb' | hnt
+        · -- a base head: its state is the one it had before this level
+          obtain ⟨hd0, q1, q2, _⟩ := hb h hb'
+          obtain ⟨hd1, r1, r2, _⟩ := frame0.mono_heads h hd0 q1
+          obtain ⟨hd3, r3, r4, _⟩ := mid.frame.mono_heads h hd1 r1
+          rw [h3] at r3; injection r3 with r3; subst r3
+          have hst : hd.state = hd0.state := by rw [r4, r2]
+          rw [hst] at hsy ⊢
+          exact RI.hsym h hd0 k q1 (by rw [← hk, hF']; exact (hbaseF h hb' hd0 q1)) hsy
+        · omega
+  · -- one head per level and state
+    intro h h' hd hd' hh hh' hl hs
+    rcases Nat.lt_or_ge hd.frontier F with hlt | hge
+    · exact RI.hfun h h' hd hd' (hframeAll.heads_bwd h hd hh hlt) (hframeAll.heads_bwd h' hd' hh' (by omega)) hl hs
+    · rcases Nat.lt_or_ge F hd.frontier with hgt | hle
+      · have hF1 : hd.frontier = F + 1 := by
+          have := si.gu.noAbove h hd hh; omega
+        obtain ⟨k, hk⟩ := si.level h hd hh hF1
+        obtain ⟨k', hk'⟩ := si.level h' hd' hh' (by omega)
+        obtain ⟨p1, _, hv, m2, m3, _⟩ := si.map k h hk
+        obtain ⟨p1', _, hv', m2', m3', _⟩ := si.map k' h' hk'
+        rw [hh] at m2; injection m2 with m2; subst m2
+        rw [hh'] at m2'; injection m2' with m2'; subst m2'
+        have hkk : k = k' := Prod.ext (by rw [← m3, ← m3', hs]) (by rw [p1, p1'])
+        have := pairwise_key_unique si.keys (k, h) hk (k', h') hk' hkk
+        injection this
+      · have hF' : hd.frontier = F := by omega
+        exact mid.hfunF h h' hd hd' (si.frame.heads_bwd h hd hh (by omega)) (si.frame.heads_bwd h' hd' hh' (by omega))
+          hF' (by omega) hs
+  · -- the next base: states entered on the token just shifted
+    intro h hh hd hhd
+    right
+    obtain ⟨k, hk⟩ := hmemb h hh
+    obtain ⟨_, q2, hv, q3, q4, _⟩ := si.map k h hk
+    rw [hhd] at q3; injection q3 with q3; subst q3
+    rw [q4, q2]
+    rcases Nat.lt_or_ge F n with hlt | hge
+    · exact (hL.terms F hlt).2
+    · exfalso
+      have hFn : F = n := by omega
+      have hnil : st3.shifts = [] := by
+        cases hsl : st3.shifts with
+        | nil => rfl
+        | cons x rest =>
+          exfalso
+          obtain ⟨_, _, _, _, _, k4, _⟩ := hfacts x (by rw [hsl]; simp)
+          rw [hFn, hL.stop] at k4
+          exact hNS _ _ k4
+      have hb0 : base' = [] := by
+        have hsh' := hsh
+        unfold shifter at hsh'
+        rw [hnil] at hsh'
+        simp only [foldO, obind] at hsh'
+        injection hsh' with hsh'
+        injection hsh' with _ e2
+        rw [← e2]; rfl
+      rw [hb0] at hh
+      simp at hh
 
 end Rustemo.Glr
